@@ -43,12 +43,41 @@ NEEDS = {
  "C20-2": ("is_response_msg no longer lists MsgRequestPreVoteResponse", "pre_vote on, a removed peer's rejected pre-vote response stepped at a node that no longer tracks it"),
 }
 
+NEEDS.update({
+ "C01b-1": ("step_follower/MsgReadIndexResp: commit_to(min(index,last)) instead of maybe_commit(index, term)", "deposed leader with a stale uncommitted tail, partition heals, new leader's heartbeat arrives before the repairing append, a forwarded read_index whose response overtakes the append"),
+ "C01b-2": ("has_unapplied_conf_changes: scan callback returns `found` (stops after the first page without a conf change)", "max_committed_size_per_ready small, unapplied committed tail [normal, conf change] spanning pages, election timeout"),
+ "C02b-1": ("has_unapplied_conf_changes: scan callback return values swapped", "finite page size, backlog starting with ordinary entries then two conf changes, partition between old-config and new-config majorities, both campaign"),
+ "C02b-2": ("poll: the Lost branch also clears self.vote", "pre_vote on: a node votes for B in term T, loses a pre-vote (stays in T, vote erased), then grants a delayed MsgRequestVote(T) from A"),
+ "C03b-1": ("RawNode::advance: applied captured after the LightReady is generated", "follower catches up on a conf change and its commit in one MsgAppend, application applies LightReady entries later, election timer fires in that window"),
+ "C03b-2": ("Raft::request_snapshot: request_index = committed instead of last_index", "request_snapshot() on a follower holding acknowledged entries above its commit index; leader snapshot in [committed, last)"),
+ "C04b-1": ("ProgressTracker::maximal_committed_index uses only the incoming half", "joint configuration with a majority of the outgoing set unreachable and the entry acknowledged by the incoming majority"),
+ "C04b-2": ("maybe_commit_by_vote: the `state == Leader` early return dropped", "leader whose commit lags receives a late vote / pre-vote request naming a higher commit"),
+ "C05b-1": ("Raft::request_snapshot: request_index = committed instead of last_index", "same as C03b-2"),
+ "C05b-2": ("MemStorageCore::apply_snapshot: entries.retain(index > snapshot) instead of clear()", "snapshot installed below the store's last index (MemStorage only)"),
+ "C07b-1": ("RaftLog::maybe_persist: index <= first_update_index", "async follower, new leader's append conflicting exactly at the last in-flight index, late on_persist_ready"),
+ "C07b-2": ("RaftLog::slice: early return dropped when the stable part was cut by max_size", "size-limited read spanning stable/unstable with a larger stable entry followed by smaller unstable ones"),
+ "C08b-1": ("step_leader/MsgReadIndex: single-voter fast path before the commit_to_current_term() guard", "single voter, commit index known but not persisted (must_sync false) and not applied, crash, restart, instant re-election, read before the first persist"),
+ "C08b-2": ("Raft::reset no longer re-creates read_only", "a read left pending on a partitioned stale leader across a leadership change; after re-election an ordinary heartbeat carries the old context"),
+ "C09b-1": ("post_conf_change: promotable updated after the removed-leader early return", "a leader commits and applies its own removal, is then ticked past its election timeout or sent MsgTimeoutNow"),
+ "C09b-2": ("hup: scan upper bound min(committed, persisted)+1", "async follower with a committed but not yet persisted conf change when its election timer fires"),
+ "C13b-1": ("Progress::reset rewritten through reset_state (matched no longer cleared)", "5 voters, same node leader twice with a follower's acknowledged tail overwritten in between; first heartbeat of the new term"),
+ "C13b-2": ("handle_append_response Snapshot arm: leaves Snapshot state when matched+1 >= first_index", "delayed old ack arrives while a snapshot is outstanding"),
+ "C15b-1": ("Raft::request_snapshot: request_index = committed instead of last_index", "same as C03b-2"),
+ "C15b-2": ("tracker::Configuration::clear() no longer resets auto_leave", "follower in an auto-leave joint configuration must restore a snapshot carrying a simple configuration"),
+ "C16b-1": ("step: granted pre-vote responses exempt from the term rule only for a PreCandidate", "a granted pre-vote delayed until the node is a follower again at the old term"),
+ "C16b-2": ("step: in_lease compares election_elapsed with heartbeat_timeout", "idle 3-node cluster, node isolated until its election timeout, rejoins; its pre-vote reaches the leader first"),
+ "C17b-1": ("handle_transfer_leader: learner check moved below the abort of a pending transfer", "transfer pending to a lagging voter, then a request naming a learner"),
+ "C17b-2": ("handle_append_response: abort_leader_transfer() right after MsgTimeoutNow on the catch-up path", "lagging but reachable target, proposal arriving while the hand-off is in flight"),
+ "C20b-1": ("hup: scan lower bound applied+1 (pending snapshot ignored)", "follower with a stepped but unhandled MsgSnapshot whose election timer fires"),
+ "C20b-2": ("confchange::restore: learners_next no longer replayed", "restart or snapshot restore in a joint configuration with a staged learner"),
+})
+
 def verified():
     ok = {}
-    for f in ["/tmp/vs_all.log", "/tmp/vs_all2.log", "/tmp/vs_all3.log"]:
+    for f in ["/tmp/vs_all.log", "/tmp/vs_all2.log", "/tmp/vs_all3.log"] + sorted(glob.glob("/tmp/vs_r2*.log")):
         if not os.path.exists(f): continue
         for l in open(f):
-            m = re.match(r"(C\d\d)-(\d): (.*)", l.strip())
+            m = re.match(r"(C\d\db?)-(\d): (.*)", l.strip())
             if not m: continue
             key = f"{m.group(1)}-{m.group(2)}"
             ok[key] = ("FAILS (good)" in l and "PASSES (good)" in l and "270 passed 0 failed" in l, m.group(3))
@@ -59,7 +88,7 @@ def detection():
     for f in sorted(glob.glob("/tmp/mut_*.log")):
         cur = None
         for l in open(f):
-            m = re.match(r"######## (C\d\d) patch(\d)", l)
+            m = re.match(r"######## (C\d\db?) patch(\d)", l)
             if m: cur = f"{m.group(1)}-{m.group(2)}"; continue
             m = re.match(r"== (C\d\d) rc=(\d+)", l)
             if m and cur:
@@ -72,8 +101,9 @@ def main():
     os.makedirs("/verif/seeded", exist_ok=True)
     rows = []
     for key, (what, needs) in sorted(NEEDS.items()):
-        pid, n = key.split("-")
-        src = f"/tmp/mut/{pid}/_out"
+        d0, n = key.split("-")
+        pid = d0[:3]
+        src = f"/tmp/mut/{d0}/_out"
         v = ok.get(key)
         if not v or not v[0]:
             rows.append((key, what, "NOT KEPT (not confirmed on current HEAD: %s)" % (v[1] if v else "no verification record"), ""))
@@ -91,7 +121,7 @@ def main():
             "needs_to_manifest": needs,
             "origin": "fresh sub-agent given only the property text and a scratch worktree of /repo",
             "confirmed": {
-                "how": "tools/verify_seeded.sh %s %s (scratch worktree of /repo HEAD): full suite with patch, demonstration with patch, demonstration without patch" % (pid, n),
+                "how": "tools/verify_seeded.sh %s %s (scratch worktree of /repo HEAD): full suite with patch, demonstration with patch, demonstration without patch" % (d0, n),
                 "result": v[1],
             },
             "checks_run": {"caught_by": caught, "not_caught_by": missed},
